@@ -11,6 +11,7 @@ TRUSTED = [
  "extraction: ExtrOcamlBasic only (bool, option, unit, list, prod, sumbool, sumor mapped to OCaml types); nat, positive, Z stay extracted inductives; OCaml 4.13.1; ocaml/cosim.ml (parsing/printing/comparison)",
  "correspondence: the hand-written model coq/Model.v is tied to /repo by co-simulation on explored executions only: harness (Rust, /verif/harness) drives the real crate built with features verif_hooks,slow_assertions under a one-thread-at-a-time scheduler; hooks in /repo/src/verif_hooks.rs define the atomic segments",
  "modelled, not verified: tokio::sync::Mutex as a FIFO hand-off mutex, std::sync::Mutex, Arc strong counts, lru::LruCache order, std HashMap iteration order (oracle, validated as a permutation), FuturesUnordered (oracle: which per-entry future ran), tokio Instant arithmetic floor, Rust drop order/unwinding",
+ "executed only by /verif/smoke (ordinary multi-threaded tests of the crate built without the hooks feature), never by the harness: tokio's blocking wait in ReplicaArc::blocking_lock_owned and RealTime::now",
  "not modelled separately (only exercised through the harness): public wrapper methods of lockable_hash_map.rs / lockable_lru_cache.rs / lockpool.rs, SyncLimit/AsyncLimit enums, borrowed vs owned variants, Never/InfallibleUnwrap, Debug impls",
 ]
 ASSUME = [
